@@ -37,24 +37,40 @@ Qed.
 Theorem fresh_name_shadows_outer_refuted : wf_graphb ex_shadow_after = false.
 Proof. vm_compute. reflexivity. Qed.
 
-(* the repair: names drawn against one model-wide set are new and pairwise distinct, and there are as many as asked *)
-Lemma rewritten_inj : forall a b, ("rewritten_val_" ++ nat_to_string a)%string = ("rewritten_val_" ++ nat_to_string b)%string -> a = b.
-Proof. intros a b H. apply append_inj_l in H. apply nat_to_string_inj. exact H. Qed.
+(* the repair: names drawn against one model-wide set are new and pairwise distinct, and there are as many as asked,
+   wherever the counter stands *)
+Lemma rv_inj : forall a b, rv a = rv b -> a = b.
+Proof. unfold rv. intros a b H. apply append_inj_l in H. apply nat_to_string_inj. exact H. Qed.
 
-Theorem fresh_names_fixed : forall k used,
-  List.length (fresh_seq used k) = k /\ NoDup (fresh_seq used k) /\ forall nm, In nm (fresh_seq used k) -> ~ In nm used.
+Lemma fresh_ctr_fixed : forall k c used,
+  List.length (fresh_ctr c used k) = k /\ NoDup (fresh_ctr c used k) /\ forall nm, In nm (fresh_ctr c used k) -> ~ In nm used.
 Proof.
-  induction k as [|k IH]; intro used; cbn [fresh_seq].
+  induction k as [|k IH]; intros c used; cbn [fresh_ctr].
   - split; [reflexivity|]. split; [constructor | intros nm []].
-  - destruct (first_free_total (fun j => ("rewritten_val_" ++ nat_to_string j)%string) used 1 rewritten_inj) as [j Hj].
-    rewrite Hj. cbv zeta. apply first_free_sound in Hj. destruct Hj as [Hf _].
-    destruct (IH (("rewritten_val_" ++ nat_to_string j)%string :: used)) as [L [N D]].
+  - destruct (first_free_total rv used (S c) rv_inj) as [j Hj].
+    rewrite Hj. apply first_free_sound in Hj. destruct Hj as [Hf _].
+    destruct (IH j (rv j :: used)) as [L [N D]].
     split; [cbn [List.length]; rewrite L; reflexivity|]. split.
     + constructor; auto. intro Q. apply D in Q. apply Q. left. reflexivity.
     + intros nm [<-|Q].
       * intro Q. apply mem_In in Q. congruence.
       * apply D in Q. intro R. apply Q. right. exact R.
 Qed.
+
+Theorem fresh_names_fixed : forall k used,
+  List.length (fresh_seq used k) = k /\ NoDup (fresh_seq used k) /\ forall nm, In nm (fresh_seq used k) -> ~ In nm used.
+Proof. intros. apply fresh_ctr_fixed. Qed.
+
+(* the names created for a model are a function of the model (the names in use, the number of values created -- itself a
+   function of the model and the rule set) alone: they do not depend on what the rule set object rewrote before *)
+Theorem names_function_of_model_fixed : forall c1 c2 used k,
+  names_created true c1 used k = names_created true c2 used k.
+Proof. reflexivity. Qed.
+
+(* before fix bb7dec3 (counter carried over): the same model gets rewritten_val_5 after four values created for other models *)
+Theorem names_function_of_model_refuted :
+  exists c1 c2 used k, names_created false c1 used k <> names_created false c2 used k.
+Proof. exists 0, 4, ["x"; "o"], 1. vm_compute. discriminate. Qed.
 
 (* ---- replacement outputs that exist already ---------------------------------------------------------------------------- *)
 Lemma has_In : forall x l, has x l = true <-> In x l.
